@@ -4,7 +4,7 @@ integers for the Python AST and once over 8-bit vectors for the LLVM IR), so the
 import os
 import z3
 from vc import build
-from vc.pyvc import PyExec, Record, as_int
+from vc.pyvc import PyExec, Record, TupleRec, as_int, as_bool
 
 ZS = os.path.join(build.REPO, 'tools', 'zonedb', 'zone_specifier.py')
 
@@ -36,4 +36,48 @@ def python_pair_obligations():
         out.append(('py:_compare_transition_to_match_fuzzy#more-than-a-month-before#%d' % k, p.pc, z3.Implies(tt < ms - 1, r == -1)))
         out.append(('py:_compare_transition_to_match_fuzzy#two-or-more-months-after#%d' % k, p.pc, z3.Implies(z3.And(z3.Not(tt < ms - 1), mu + 2 <= tt), r == 2)))
         out.append(('py:_compare_transition_to_match_fuzzy#within-slack#%d' % k, p.pc, z3.Implies(z3.And(z3.Not(tt < ms - 1), z3.Not(mu + 2 <= tt)), r == 1)))
+    # --- ZoneSpecifier._compare_era_to_year_month <-> ExtendedZoneProcessor::compareEraToYearMonth
+    uy, um, ud, us, y, m = z3.Ints('py_uy py_um py_ud py_us py_y py_m')
+    ex = PyExec(ZS)
+    era = Record({'untilYear': uy, 'untilMonth': um, 'untilDay': ud, 'untilSeconds': us})
+    paths = ex.run('ZoneSpecifier._compare_era_to_year_month', {'era': era, 'year': y, 'month': m}, pre=[ud >= 1, us >= 0])
+    lex_lt = lambda a, b: z3.Or(a[0] < b[0], z3.And(a[0] == b[0], z3.Or(a[1] < b[1], z3.And(a[1] == b[1], z3.Or(a[2] < b[2], z3.And(a[2] == b[2], a[3] < b[3]))))))
+    U, Q = (uy, um, ud, us), (y, m, z3.IntVal(1), z3.IntVal(0))
+    for k, p in enumerate(paths):
+        r = as_int(p.value)
+        out.append(('py:_compare_era_to_year_month#negative-iff-the-era-ends-before-the-month-starts#%d' % k, p.pc, (r < 0) == lex_lt(U, Q)))
+        out.append(('py:_compare_era_to_year_month#positive-iff-the-era-ends-after-the-month-starts#%d' % k, p.pc, (r > 0) == lex_lt(Q, U)))
+    # --- _compare_transition_to_match <-> ExtendedZoneProcessor::compareTransitionToMatch (position relative to the match)
+    ORDER = ('y', 'M', 'd', 'ss', 'f')
+
+    def dt(tag, suffix=None):
+        f = z3.Int('py_%s_f' % tag) if suffix is None else suffix
+        return TupleRec({'y': z3.Int('py_%s_y' % tag), 'M': z3.Int('py_%s_M' % tag), 'd': z3.Int('py_%s_d' % tag), 'ss': z3.Int('py_%s_ss' % tag), 'f': f}, ORDER)
+    W, S, Uc = ord('w'), ord('s'), ord('u')
+    start, until = dt('start'), dt('until')
+    tw, ts, tu = dt('tw', z3.IntVal(W)), dt('ts', z3.IntVal(S)), dt('tu', z3.IntVal(Uc))
+    ex = PyExec(ZS)
+    tr = Record({'transitionTime': tw, 'transitionTimeS': ts, 'transitionTimeU': tu})
+    mt = Record({'startDateTime': start, 'untilDateTime': until})
+    suffix_ok = lambda f: z3.Or(f == W, f == S, f == Uc)
+    pre = [suffix_ok(start.fields['f']), suffix_ok(until.fields['f'])]
+    paths = ex.run('_compare_transition_to_match', {'transition': tr, 'match': mt}, pre=pre)
+
+    def reading(f):
+        return [z3.If(f == S, ts.fields[k], z3.If(f == Uc, tu.fields[k], tw.fields[k])) for k in ('y', 'M', 'd', 'ss')]
+
+    def key_lt(a, b):
+        return lex_lt(a, b)
+    sv = [start.fields[k] for k in ('y', 'M', 'd', 'ss')]
+    uv = [until.fields[k] for k in ('y', 'M', 'd', 'ss')]
+    rs, ru = reading(start.fields['f']), reading(until.fields['f'])
+    before = key_lt(rs, sv)
+    at_start = z3.And([a == b for a, b in zip(rs, sv)])
+    inside = key_lt(ru, uv)
+    want = z3.If(before, -1, z3.If(at_start, 0, z3.If(inside, 1, 2)))
+    for k, p in enumerate(paths):
+        if p.outcome != 'return':
+            out.append(('py:_compare_transition_to_match#no-exception-for-w-s-u-suffixes#%d' % k, p.pc, z3.BoolVal(False)))
+            continue
+        out.append(('py:_compare_transition_to_match#position-relative-to-the-match#%d' % k, p.pc, as_int(p.value) == want))
     return out
